@@ -59,8 +59,9 @@ def dimAddr (dv : List (Nat × Nat)) (idx : List Nat) : Except Nat Nat :=
 
 /-! ## vm_get_slice_range -/
 
-/-- vm_get_slice_range on mathematical integers; `none` is `*oob = 1`. -/
-def sliceRange (a b c d : Int) : Option (Int × Int) :=
+/-- vm_get_slice_range as in the pinned tree (only one end tested, only against `b`); kept for the record
+and as the body of the repaired function -/
+def sliceRangePinned (a b c d : Int) : Option (Int × Int) :=
   if a < b then
     let resFrom := a + c
     let resTo := a + d
@@ -75,6 +76,11 @@ def sliceRange (a b c d : Int) : Option (Int × Int) :=
       if resTo < b then none else some (resFrom, resTo)
     else
       if resFrom < b then none else some (resFrom, resTo)
+
+/-- vm_get_slice_range on mathematical integers; `none` is `*oob = 1`.  Since the `fix:` commit 3ebfaa3 the function
+first rejects a negative inner bound (`if (range2_from < 0 || range2_to < 0) { *oob = 1; return; }`) -/
+def sliceRange (a b c d : Int) : Option (Int × Int) :=
+  if c < 0 ∨ d < 0 then none else sliceRangePinned a b c d
 
 /-! ## vm_execute_array_deref_univ (index part) -/
 
@@ -126,7 +132,7 @@ def rangeDerefIndex (fr t i : Int) : Except Unit Int :=
 /-! ## vm_execute_string_deref -/
 
 /-- the guard exactly as written: `if (index < 0 || index >= (int)strlen(str)) → oob`
-(the `index < 0` half was added by the `fix:` commit f8907f0; the pinned tree lacked it) -/
+(the `index < 0` half was added by the `fix:` commit 3ebfaa3 f8907f0; the pinned tree lacked it) -/
 def stringDerefOk (len : Nat) (i : Int) : Bool :=
   !(decide (i < 0) || decide (i ≥ (len : Int)))
 
